@@ -140,6 +140,7 @@ def parseOp (kind : String) (args : List String) (jp jr : Nat) : Option Op :=
   match kind, args with
   | "new", _ => some .new
   | "connect", e :: _ => e.toNat?.map fun e => .connect e jp jr
+  | "connectfail", _ => some .connectFail
   | "pong", _ => some .pong
   | "refresh", a :: _ => (parseAns a).map .refresh
   | "srefresh", a :: _ => (parseAns a).map .srefresh
